@@ -87,6 +87,9 @@ def main(argv=None):
         print(__doc__)
         return 3
     if argv[0] == "replay":
+        if len(argv) < 2 or not os.path.exists(argv[1]):
+            print("usage: ./check replay <replay file written by a check (replay/<property>/<id>.json)>")
+            return 3
         from pyvc.replay_cli import replay_file
         return replay_file(argv[1])
     prop = argv[0]
